@@ -65,4 +65,26 @@ def swapLR : MatchEventSubtype → MatchEventSubtype
   | .terminal_site_match_right_precise => .terminal_site_match_left_precise
   | e => e
 
+/-! ### pre-fix bodies of the two overlap tests (audit2-C G7)
+
+`overlaps_at_least` / `overlaps_at_least_when_overlap` of src/common.py as they were before the fix "containment first":
+the branch `range1[1] < range2[1]` is strict, so a range INSIDE the other one that shares only its RIGHT end fell into
+the partial-overlap test while its mirror image (sharing the LEFT end) was accepted as contained.  Kept as variants so
+that the asymmetry keeps its witness theorems (Props/C11.lean `…Buggy_mirror_witness`, `…Buggy_mirror_iff`) and the
+fix is characterised exactly (`overlaps_at_least_fix_exact`).  The current bodies are the generated ones in
+Gen/Prims.lean. -/
+
+def overlapsAtLeastBuggy (range1 range2 : Iv) (delta : Int) : Bool :=
+  let ovlp1 := range1.2 - range2.1
+  let ovlp2 := range2.2 - range1.1
+  if decide (ovlp1 < 0) || decide (ovlp2 < 0) then false
+  else
+    let d := delta - 1
+    if decide (range1.2 < range2.2) then decide (ovlp1 ≥ d) || decide (range1.1 ≥ range2.1)
+    else decide (ovlp2 ≥ d) || decide (range1.1 ≤ range2.1)
+
+def overlapsAtLeastWhenOverlapBuggy (range1 range2 : Iv) (delta : Int) : Bool :=
+  if decide (range1.2 < range2.2) then decide (range1.1 ≥ range2.1) || decide (range1.2 - range2.1 + 1 ≥ delta)
+  else decide (range1.1 ≤ range2.1) || decide (range2.2 - range1.1 + 1 ≥ delta)
+
 end IsoVerif.Model.C11
